@@ -341,6 +341,21 @@ func runCheck(o *checkOpts, spec *CheckSpec, doSelftest bool) int {
 					}
 					rep.confirm, rep.native = nr.confirms(rf.Expect)
 					ev.replays++
+					// a counterexample that depends on map iteration order cannot be
+					// forced natively: retry (the runtime randomises), then fall back to
+					// the engine's deterministic replay
+					for try := 0; !rep.confirm && v.MapOrder > 0 && try < 6; try++ {
+						nr, err = nativeRun(o.repo, o.verif, ur.unit, patchesFor(ur.unit, patches), p, entriesOf(ur.prog), to)
+						if err != nil {
+							break
+						}
+						rep.confirm, rep.native = nr.confirms(rf.Expect)
+						ev.replays++
+					}
+					if !rep.confirm && v.MapOrder > 0 {
+						rep.confirm, rep.engineOnly = true, true
+						rep.native = "depends on map iteration order: not reproduced by 7 native runs; confirmed by the engine's deterministic replay only"
+					}
 					if !rep.confirm {
 						fmt.Printf("ENCODING-MISMATCH property=%s replay=%s (%s)\n%s\n", prop, p, rep.native, tail(nr.Output, 15))
 					}
